@@ -55,7 +55,7 @@ LOOPS = [
 DEFAULT_CAPS = [
     # (file, regex, expected, meaning)
     ("algorithm/lineSearch/lineSearch.go", r"parameters\s*:=\s*Parameters\s*\{\s*1\s*,\s*(\d+)\s*\}", "20", "lineSearch default MaxEval"),
-    ("algorithm/bfgs/bfgs.go", r"lineSearch\.Parameters\{1,\s*(\d+)\}", "100", "MaxEval of the line search inside bfgs"),
+    ("algorithm/bfgs/bfgs.go", r"lineSearch\.Parameters\s*\{\s*1\s*,\s*(\d+)\s*\}", "100", "MaxEval of the line search inside bfgs"),
     ("algorithm/rprop/rprop.go", r"maxIterations\s*:=\s*MaxIterations\s*\{(int\(\^uint\(0\) >> 1\))\}", "int(^uint(0) >> 1)", "rprop default MaxIterations = MaxInt (unbounded by default)"),
     ("algorithm/bfgs/bfgs.go", r"maxIterations\s*:=\s*MaxIterations\s*\{(int\(\^uint\(0\) >> 1\))\}", "int(^uint(0) >> 1)", "bfgs default MaxIterations = MaxInt (unbounded by default)"),
     ("algorithm/adam/adam.go", r"maxIterations\s*:=\s*MaxIterations\s*\{(int\(\^uint\(0\) >> 1\))\}", "int(^uint(0) >> 1)", "adam default MaxIterations = MaxInt (unbounded by default)"),
@@ -75,12 +75,16 @@ PANIC_IS_LOUD = {"special", "gd"}   # an explicit panic of these routines is a l
 
 
 def findings():
+    """Merged known findings of C20.  corpus/C20/known_findings_proposed.json is this property's own (fresher) file:
+    an entry there overrides the merged entry of the same id (its `match` has the shape this plugin understands);
+    ids listed under `retired` there are dropped (fixed in /repo: a re-appearance must be a VIOLATION)."""
     fs = list(vlib.known_findings("C20"))
-    ids = {f["id"] for f in fs}
     if os.path.exists(PROPOSED):
-        for f in json.load(open(PROPOSED)).get("findings", []):
-            if f["id"] not in ids:
-                fs.append(f)
+        d = json.load(open(PROPOSED))
+        retired = {r["id"] for r in d.get("retired", [])}
+        mine = {f["id"]: f for f in d.get("findings", [])}
+        fs = [mine.pop(f["id"], f) for f in fs if f["id"] not in retired]
+        fs += [f for f in mine.values() if f["id"] not in retired]
     return fs
 
 
@@ -110,6 +114,10 @@ def known_term(r, fs):
             continue
         if m.get("objs") and c.get("obj") not in m["objs"]:
             continue
+        if m.get("flags") and not set(m["flags"]) <= set(c.get("flags") or []):
+            continue
+        if [c["family"], c["n"]] in m.get("cases", []):
+            return f
         fams = m.get("families")
         pref = m.get("family_prefixes")
         if fams and ("*" in fams or c["family"] in fams):
